@@ -298,11 +298,8 @@ class Model:
             if not cands:
                 return ("FAIL", f"no {kind} named {name} visible in {ctx_layer}")
             if len(cands) > 1:
-                local_names = {id(o) for c in colls for o in self.local_objs(ctx_layer, c)}
-                if len({c for _, c in cands}) > 1 and not all(id(o) in local_names for o, _ in cands):
-                    # own STRUCTURE "N" and inherited DATA-OBJECT-PROP "N": does the own object override the
-                    # inherited one across DOP-BASE kinds?  Not explicit -> don't care.
-                    return ("DONTCARE", "same short name in different DOP-BASE collections, partly inherited")
+                # also when the candidates sit in different DOP-BASE collections (own STRUCTURE "N" and inherited
+                # DATA-OBJECT-PROP "N"): overriding works per collection, both are visible, the name is not unique
                 return ("FAIL", f"{len(cands)} objects named {name} visible in {ctx_layer}")
             return ("BIND", cands[0][0]["m"])
         if kind == "tablekey":
